@@ -83,6 +83,12 @@ def _field(mesh, arr, rng=None):
         kw["unit"] = gen.pick(rng, [None, "T"])
     if np.iscomplexobj(arr):
         kw["dtype"] = complex
+    elif rng is not None and arr.dtype.kind == "i" and rng.random() < 0.6:
+        # an integer field keeps an integer array only when the dtype is declared;
+        # its integrals and means are still real numbers
+        kw["dtype"] = gen.pick(rng, [int, np.int64, np.int32])
+    elif rng is not None and arr.dtype.kind == "f" and rng.random() < 0.2:
+        kw["dtype"] = np.float64
     return df.Field(mesh, nvdim=nvdim, value=arr.copy(), **kw)
 
 
